@@ -480,6 +480,20 @@ def _channel_waiters(kind):
             w.pump(loop)
             _settle(loop, 500)
             return [n for n, x in (('drain() never ends', td), ('disconnect() never ends', tc)) if not x.done()]
+        if kind == 'coc_drain_local_disconnect':
+            got = []
+            b.create_le_credit_based_server(l2cap.LeCreditBasedChannelSpec(psm=0x81, max_credits=1), handler=got.append)
+            t = loop.create_task(a.create_le_credit_based_channel(w.conns[0][1], l2cap.LeCreditBasedChannelSpec(psm=0x81)))
+            w.pump(loop)
+            ca = t.result()
+            got[0].sink = lambda sdu: None
+            ca.write(bytes(600))
+            td = loop.create_task(ca.drain())
+            loop.run_ready()
+            tc = loop.create_task(ca.disconnect())
+            w.pump(loop)
+            _settle(loop, 500)
+            return [n for n, x in (('drain() never ends', td), ('disconnect() never ends', tc)) if not x.done()]
         if kind == 'parameter_update_link_loss':
             t1 = loop.create_task(b.update_connection_parameters(w.conns[1][1], 10, 20, 0, 100))
             loop.run_ready()
@@ -501,14 +515,14 @@ def _channel_waiters(kind):
         raise KeyError(kind)
 
 
-WAITER_KINDS = ['classic_crossing_disconnect', 'coc_drain_peer_closes', 'parameter_update_link_loss']
+WAITER_KINDS = ['classic_crossing_disconnect', 'coc_drain_peer_closes', 'parameter_update_link_loss', 'coc_drain_local_disconnect']
 
 
-@harness(pre=['0 <= i <= 2'], family='l2cap-cut', twin=True, kernels=K + ('bumble.l2cap.ClassicChannel.on_disconnection_request', 'bumble.l2cap.LeCreditBasedChannel.on_disconnection_request',
+@harness(pre=['0 <= i <= 3'], family='l2cap-cut', twin=True, kernels=K + ('bumble.l2cap.ClassicChannel.on_disconnection_request', 'bumble.l2cap.LeCreditBasedChannel.on_disconnection_request',
                                                                           'bumble.l2cap.ChannelManager.update_connection_parameters'), timeout=(60, 200),
-         bounds='three waiters released by channel-level events: both ends of a classic channel call disconnect() at the same time (crossing requests); drain() on an LE CoC channel whose peer closes it; an L2CAP connection-parameter-update request whose link drops (and a later request on another link)')
+         bounds='four waiters released by channel-level events: both ends of a classic channel call disconnect() at the same time (crossing requests); drain() on an LE CoC channel whose peer closes it, or that is closed locally; an L2CAP connection-parameter-update request whose link drops (and a later request on another link)')
 def channel_level_waiters(i: int) -> bool:
-    i = C(i, 0, 2)
+    i = C(i, 0, 3)
     with untraced():
         return not _channel_waiters(WAITER_KINDS[i])
 
